@@ -48,6 +48,7 @@ CHECKS = {
         units=[
             dict(test="TestC02Plain", unit="plain", kind="rapid", checks=(1600, 40000), shards=(8, 16)),
             dict(test="TestC02Objects", unit="objects", kind="rapid", checks=(800, 20000), shards=(8, 16)),
+            dict(test="TestC02Lease", unit="lease", kind="enum", shards=(4, 4), bin=True),
         ],
     ),
     "C09": dict(
